@@ -18,6 +18,7 @@ RULE = ("requests `tostr`, `strfrom` (String::from), `debug` ({:?}), `parse S<ca
         "Non-trivial = scale > 0")
 BUILDS = {"quick": [("dev", ("full",)), ("release", ("full",))],
           "thorough": [("dev", ("full",)), ("release", ("full",)), ("release", ("full", "packed")), ("o0-nochk", ("full",))]}
+MODE_INDEPENDENT = True      # half of every batch runs under a non-default thread rounding mode
 REQUIRED_SITES = {}
 BUDGET = {"quick": 15, "thorough": 200}
 N_RANDOM = {"quick": 5000, "thorough": 20000}
